@@ -40,10 +40,15 @@ func init() {
 			"(soup) token soups, random bytes, mutated valid texts and long inputs - whatever parses is evaluated and compared with a typed walk of the returned protopath; " +
 			"(render) InspectPayload/InspectSignature/InspectMask, MaskOptions.Mask and the CLI 'inspect payload|signature|mask' (in-process, in-memory IO) for bin/hex/base64/auto(terminal and not) over byte strings of boundary lengths, plus sequences of 3-6 such calls on ONE *Inspect (in one context) or *MaskOptions whose writer the caller swaps between terminal and non-terminal (every step judged like a single call; the options' Form must be unchanged afterwards); " +
 			"(held, case numbers after the original ones) 2-6 paths (same root type, now and then the same text twice or a path of another root type in between) are ALL parsed first - one after the other, or by goroutines started together - and only then evaluated (forwards, backwards, or everything held so far after every further parse), each on the message it was drawn from, another random one and the empty one, judged by the walk of its own structured path; " +
-			"(os-files, likewise) sequences of 2-6 'inspect payload|signature|mask FILE --out=DEST --bytesform=bin|hex|base64|auto' runs through the CLI's real file backend cmd.OSIO in a private temporary directory, over 2-3 endorsement files and 1-2 destinations that are reused between the steps and are absent / empty / hold left-over bytes before the first; after every step DEST is read back with os.ReadFile and judged like every other rendering. " +
+			"(os-files, likewise) sequences of 2-6 'inspect payload|signature|mask FILE --out=DEST --bytesform=bin|hex|base64|auto' runs through the CLI's real file backend cmd.OSIO in a private temporary directory, over 2-3 endorsement files and 1-2 destinations that are reused between the steps and are absent / empty / hold left-over bytes before the first; after every step DEST is read back with os.ReadFile and judged like every other rendering; " +
+			"(audit families, likewise after all earlier case numbers; audit.go) (several) ONE mask call with 2-5 paths - InspectMask, MaskOptions.Mask, CLI with --path repeated / comma separated / both / as a separate argument, sometimes with --bytesform and --out left at their defaults - over present bytes fields, unset (empty) bytes fields, the same path twice, other values and absent elements at every position, the golden measurement / the endorsement file now and then in a non-canonical but equivalent protobuf encoding (reversed field order, superseded earlier duplicate, repeated field, non-minimal varints, unknown fields; expectations are what protobuf decodes from those bytes); " +
+			"(fault) a rendering is first made on a sound writer (counting its Write calls), then repeated with one Write call refused (first / last / any; once or from then on; accepting nothing or half), then repeated on the same options value with a sound writer; " +
+			"(mixed) 4-8 calls of all entry points - well-typed paths, texts that break off in the scanner or parser, renderings, masks of absent elements - run one after the other, by goroutines started together, or (3-6 renderings of one form) in lockstep, where every goroutine is held inside its first Write until all of them are there; everything is judged after the goroutines have ended, each call by its own reference; " +
+			"(wire) CLI payload / signature / mask over non-canonical endorsement files, flags at their defaults now and then; " +
+			"(kinds) 1-3 CLI payload / signature runs through cmd.OSIO with the endorsement behind a symbolic link, a FIFO fed by a goroutine, or a link to one, and the destination fresh, a longer file, a link to a longer file or a dangling link. " +
 			"Oracle: the reference walk (pathref.Walk) says present(value)/absent/unwalkable; a parse error is always allowed (counted); after a successful parse the evaluation must return exactly the walked value (every intermediate value too) when present and an error otherwise; no panic, no call that fails to return (200 s CPU backstop), allocation <= 64 MiB + 4 KiB/byte per call; " +
 			"bin output equals the field bytes, hex/base64 output decodes (encoding/hex, RFC 4648 standard alphabet) to exactly the field bytes. " +
-			"non-trivial = a path that parsed and was evaluated (or a rendering that was produced); distinct = (family, root type, step-kind shape with map key kinds, kind of the addressed value, expected status, outcome) and (entry, form, length class) cells; held: (mode, root, number of paths) plus the evaluation cells; os-files: (subcommand, form, length of the exact rendering relative to what the destination held)",
+			"non-trivial = a path that parsed and was evaluated (or a rendering that was produced); distinct = (family, root type, step-kind shape with map key kinds, kind of the addressed value, expected status, outcome) and (entry, form, length class) cells; held: (mode, root, number of paths) plus the evaluation cells; os-files: (subcommand, form, length of the exact rendering relative to what the destination held); several: (entry, encoding, number of paths, position of the first empty field, position of the first absent element, outcome) and (path flag style, destination, defaults); fault: (entry, encoding, which write, short, persistent, outcome); mixed: (mode, calls, failing calls) plus evaluation / rendering cells; wire: (subcommand, encoding, operator); kinds: (subcommand, form, input kind, destination kind)",
 		Assumptions: []string{
 			"a parse error is never judged (C19: 'parsing either fails with an error or ...'); floors require that every spelling feature and every map key kind was seen to parse and evaluate to the walked value, so a parser that rejects a whole class makes the run inconclusive instead of passing",
 			"an unset singular message field is not absent (protobuf reflection reads it as the empty message); only missing list indices and map keys are absent",
@@ -52,6 +57,11 @@ func init() {
 			"C19 states no time bound: CPU time per call is evidence (maxima), only a 200 s backstop decides (non-termination); allocation is bounded per call as in C07; the worker runs under ulimit -v 6 GiB so that runaway allocation ends the child, not the host",
 			"a parsed path is a value the caller may hold: C19's 'evaluated on any message of the root type' is judged whenever the caller evaluates it, also after further ParsePath calls (sequential or concurrent); only evaluation results are judged, never the identity or printed form of the held path",
 			"what 'inspect ... --out=DEST' leaves in DEST is the rendering an external tool re-verifies (cmd.IO.Create: 'creates or opens and truncates'): with the real file backend the file content after a successful run must be exactly the rendering, whatever DEST held before; file modes, timestamps and the like are not judged; if the monitor cannot set up its temporary directory the case is counted as environment-unavailable and a floor requires that sequences ran",
+			"a mask with several paths prints them 'on separate lines' (help text of --path; the repository's own test pins 'A\\nB'): the output must be the renderings in path order joined by single newlines - compared as a whole for raw output (the fields may hold newlines themselves), line by line for hex / base64; an empty bytes field is an empty line; one absent or unwalkable element anywhere makes the call fail (C19: 'or an error when the addressed element is absent'), whatever was printed before it; outputs with a present non-bytes value in them are not compared",
+			"C19's renderings exist 'so external tools can re-verify them': a call that returns nil claims a complete rendering, so whatever a writer ACCEPTED during a call that reported success must be an exact rendering; a call that reports the writer's refusal is never judged. One case of this fires on the unchanged tree (F35 candidate: the final base64 group is written by enc.Close(), whose error writeBase64 drops) and is counted, not judged, while judgeBase64FinalGroupWriteFault is false",
+			"results do not depend on what else the process does: calls made after failed calls, and calls running at the same time as others (every call on its own options value, writer and receiver; messages are only read), are judged exactly like single calls; the lockstep writer only delays the return of Write, it changes no data",
+			"an endorsement file / golden measurement in a non-canonical encoding IS the message protobuf decodes from it (the monitor decodes the same bytes with google.golang.org/protobuf, a dependency, not the code under test); 'inspect payload' must print the payload bytes as they are in the file, not a re-encoding",
+			"the CLI reads FILE and writes --out through the operating system's notion of a path: a symbolic link or a FIFO in place of the endorsement, and a symbolic link in place of the destination, are followed; FIFOs are fed by a goroutine of the monitor with less than a pipe buffer of data, the monitor never waits on time",
 			"CLI paths contain no comma or quote (cobra's --path is a CSV string slice); the CLI is driven in-process through the verif backend hook with in-memory IO",
 		},
 		ShardsQuick: 8, ShardsThor: 16, TimeoutS: 1500, TimeoutThor: 3600, UlimitVKB: 6 << 20, Run: run,
@@ -94,6 +104,21 @@ type checker struct {
 	heldOK       map[string]int
 	osSteps      int
 	osOverLonger int
+	// audit families (audit.go)
+	sevExact             map[string]int
+	sevStyle             map[string]int
+	sevEmptyBeforeLater  int
+	sevLateAbsent        int
+	sevDefaultForm       int
+	sevDefaultOut        int
+	wireOK               map[string]int
+	faultReported        map[string]int
+	faultLastReported    int
+	faultThenExact       int
+	mixedGoodAfterFailed map[string]int
+	lockstepExact        map[string]int
+	mixedSpecial         map[string]int
+	kindsOK              map[string]int
 }
 
 func threadUserCPU() time.Duration {
@@ -237,20 +262,27 @@ func (k *checker) evalParsed(i int, family, gen, text string, rt rootType, pp pr
 			c.Cell("%s|%s|%s|%s|%s|PANIC", family, rt.name, cut(exp.Shape), exp.Final, exp.Status)
 			continue
 		}
-		var got []protoreflect.Value
-		if err == nil {
-			got = vs.Values
-		}
-		out := k.judge(i, entEval, gen, text, nm.name, nm.m, exp, got, err)
-		c.Count("eval/"+family+"/"+out, 1)
-		c.Cell("%s|%s|%s|%s|%s|%s", family, rt.name, cut(exp.Shape), exp.Final, exp.Status, out)
-		if out == "value-equal" && onOK != nil {
+		if out := k.judgeEvalResult(i, family, gen, text, rt, nm, exp, vs, err); out == "value-equal" && onOK != nil {
 			onOK(nm.name, exp)
 		}
-		if out == "absent-error" {
-			k.absentErr++
-		}
 	}
+}
+
+// judgeEvalResult judges what one PathValues call returned against the reference walk exp of the
+// same message, counts it and records its cell. Returns the outcome class.
+func (k *checker) judgeEvalResult(i int, family, gen, text string, rt rootType, nm namedMsg, exp pathref.Walked, vs protopath.Values, err error) string {
+	c := k.c
+	var got []protoreflect.Value
+	if err == nil {
+		got = vs.Values
+	}
+	out := k.judge(i, entEval, gen, text, nm.name, nm.m, exp, got, err)
+	c.Count("eval/"+family+"/"+out, 1)
+	c.Cell("%s|%s|%s|%s|%s|%s", family, rt.name, cut(exp.Shape), exp.Final, exp.Status, out)
+	if out == "absent-error" {
+		k.absentErr++
+	}
+	return out
 }
 
 func cut(s string) string {
@@ -701,7 +733,8 @@ func (k *checker) soup(i int, r *rand.Rand, rt rootType) {
 }
 
 func run(c *core.Ctx) {
-	k := &checker{c: c, okKeyKind: map[string]bool{}, okSpelling: map[string]bool{}, okRoot: map[string]bool{}, renderOK: map[string]bool{}, heldOK: map[string]int{}}
+	k := &checker{c: c, okKeyKind: map[string]bool{}, okSpelling: map[string]bool{}, okRoot: map[string]bool{}, renderOK: map[string]bool{}, heldOK: map[string]int{},
+		sevExact: map[string]int{}, sevStyle: map[string]int{}, wireOK: map[string]int{}, faultReported: map[string]int{}, mixedGoodAfterFailed: map[string]int{}, lockstepExact: map[string]int{}, mixedSpecial: map[string]int{}, kindsOK: map[string]int{}}
 	n := c.N(10000, 300000)
 	for i := 0; i < n; i++ {
 		if !c.Mine(i) {
@@ -745,6 +778,57 @@ func run(c *core.Ctx) {
 		} else {
 			k.osFiles(i, r)
 		}
+	}
+	// The audit's families (audit.go), again after everything that existed before.
+	base := n + nHeld + nOS
+	nSev, nFault, nMixed, nWire, nKinds := c.N(450, 7000), c.N(400, 6000), c.N(300, 5000), c.N(120, 2000), c.N(100, 1500)
+	for i := base; i < base+nSev+nFault+nMixed+nWire+nKinds; i++ {
+		if !c.Mine(i) {
+			continue
+		}
+		r := c.Rand(i)
+		switch j := i - base; {
+		case j < nSev:
+			k.several(i, r)
+		case j < nSev+nFault:
+			k.fault(i, r)
+		case j < nSev+nFault+nMixed:
+			k.mixed(i, r)
+		case j < nSev+nFault+nMixed+nWire:
+			k.wireCLI(i, r)
+		default:
+			k.osKinds(i, r)
+		}
+	}
+	for _, e := range []string{entSevAPI, entSevCLI, entSevOpts} {
+		c.Floor("several-paths-rendering-exact/"+e, k.sevExact[e] > 0)
+	}
+	for _, st := range []string{"repeated", "comma-separated", "mixed", "separate-argument"} {
+		c.Floor("several-paths-cli-path-flag/"+st, k.sevStyle[st] > 0)
+	}
+	c.Floor("several-paths-empty-field-before-a-later-one-exact", k.sevEmptyBeforeLater > 0)
+	c.Floor("several-paths-absent-element-after-present-ones-gave-error", k.sevLateAbsent > 0)
+	c.Floor("cli-default-bytesform-exact", k.sevDefaultForm > 0)
+	c.Floor("cli-default-out-exact", k.sevDefaultOut > 0)
+	for _, op := range wireOpNames {
+		c.Floor("non-canonical-encoding-rendered-exact/"+op, k.wireOK[op] > 0)
+	}
+	for _, enc := range []string{"bin", "hex", "base64"} {
+		c.Floor("refused-write-reported/"+enc, k.faultReported[enc] > 0)
+		c.Floor("lockstep-renderings-exact/"+enc, k.lockstepExact[enc] > 0)
+	}
+	c.Floor("refused-last-write-reported", k.faultLastReported > 0)
+	c.Floor("rendering-exact-after-a-refused-write-on-the-same-options", k.faultThenExact > 0)
+	for _, m := range []string{"one-after-the-other", "started-together"} {
+		c.Floor("good-call-correct-with-failed-calls-around/"+m, k.mixedGoodAfterFailed[m] > 0)
+	}
+	c.Floor("one-text-evaluated-on-two-root-types", k.mixedSpecial["same-text-other-root"] > 0)
+	c.Floor("text-parsed-again-after-the-caller-overwrote-the-first-result", k.mixedSpecial["path-again-after-the-caller-overwrote-the-first-result"] > 0)
+	for _, kd := range inputKinds {
+		c.Floor("os-file-kinds-exact/input="+kd, k.kindsOK["input="+kd] > 0)
+	}
+	for _, kd := range destKinds {
+		c.Floor("os-file-kinds-exact/destination="+kd, k.kindsOK["destination="+kd] > 0)
 	}
 	for _, m := range heldModes {
 		c.Floor("held-path-value-equal-after-later-parses/"+m, k.heldOK[m] > 0)
